@@ -165,10 +165,17 @@ func init() {
 	if !intLiteralSpellings {
 		return
 	}
-	// one value per spelling and a few more: 0644-style octal, hex, 0o, 0b, _ separators
-	intPool = append(intPool, Val{I: 0o644, Fmt: 4}, Val{I: 255, Fmt: 1}, Val{I: -255, Fmt: 1}, Val{I: 15, Fmt: 2}, Val{I: 5, Fmt: 3}, Val{I: 1000000, Fmt: 5}, Val{I: math.MinInt64, Fmt: 1})
-	uintPool = append(uintPool, Val{U: 0o644, Fmt: 4}, Val{U: 8, Fmt: 4}, Val{U: math.MaxUint64, Fmt: 1}, Val{U: 15, Fmt: 2}, Val{U: 5, Fmt: 3}, Val{U: 1000000, Fmt: 5})
+	intPool = append(intPool, literalInts...)
+	uintPool = append(uintPool, literalUints...)
+	deepIntPool = append(deepIntPool, literalInts...)
+	deepUintPool = append(deepUintPool, literalUints...)
+	deepUintPool = append(deepUintPool, Val{U: 1 << 63, Fmt: 1}, Val{U: 1<<53 + 1, Fmt: 2}, Val{U: math.MaxUint64, Fmt: 3}, Val{U: math.MaxUint64, Fmt: 5})
+	deepIntPool = append(deepIntPool, Val{I: math.MaxInt64, Fmt: 1}, Val{I: math.MinInt64, Fmt: 4}, Val{I: -(1<<53 + 1), Fmt: 2}, Val{I: math.MaxInt64, Fmt: 5}, Val{I: -1, Fmt: 3})
 }
+
+// one value per spelling and a few more: 0644-style octal, hex, 0o, 0b, _ separators
+var literalInts = []Val{{I: 0o644, Fmt: 4}, {I: 255, Fmt: 1}, {I: -255, Fmt: 1}, {I: 15, Fmt: 2}, {I: 5, Fmt: 3}, {I: 1000000, Fmt: 5}, {I: math.MinInt64, Fmt: 1}}
+var literalUints = []Val{{U: 0o644, Fmt: 4}, {U: 8, Fmt: 4}, {U: math.MaxUint64, Fmt: 1}, {U: 15, Fmt: 2}, {U: 5, Fmt: 3}, {U: 1000000, Fmt: 5}}
 
 var boolPool = []Val{{B: false}, {B: true}}
 
@@ -579,6 +586,7 @@ func priorOf(r *rand.Rand, cs *Case, maskFor func(orig *Field) int) *Case {
 	}
 	pick := cars[r.Intn(len(cars))]
 	p.Carrier, p.PathKind = pick.car, pick.path
+	withUsageFlag(r, p)
 	return p
 }
 
@@ -625,7 +633,31 @@ func latticeCase(r *rand.Rand, c latticeCell, sch [4]*Val, syn int) (*Case, *Fie
 	if r.Intn(4) == 0 {
 		cs.Tail = tails[r.Intn(len(tails))]
 	}
+	withUsageFlag(r, cs)
+	withFirstParse(r, cs)
 	return cs, target
+}
+
+// withUsageFlag puts the built-in usage flag on the command line of a quarter of the cases: in any
+// spelling, shuffled among the other flags, first or last. The expected field values do not change.
+func withUsageFlag(r *rand.Rand, cs *Case) {
+	if r.Intn(4) == 0 {
+		cs.Help, cs.HelpPos = 1+r.Intn(5), r.Intn(3)
+	}
+}
+
+var failModes = []string{"", "unknown-flag", "missing-value", "bad-value", "bad-env", "bad-json"}
+
+// withFirstParse gives an eighth of the cases a FlagSet with a past: an earlier Parse call on the
+// same FlagSet with sources of its own (same struct type; JSON, env and cli re-rolled towards other
+// final values), ordinary or made to fail in one of five ways after valid flags have been seen.
+func withFirstParse(r *rand.Rand, cs *Case) {
+	if r.Intn(8) != 0 {
+		return
+	}
+	fp := priorOf(r, cs, func(*Field) int { return r.Intn(8) << 1 })
+	fp.Kind, fp.Fail = "first-parse", failModes[r.Intn(len(failModes))]
+	cs.FirstParse = fp
 }
 
 var tails = [][]string{{"pos"}, {"--", "-x=1"}, {"pos", "-debug"}, {"--"}, {"-"}, {"", "-port=1"}}
@@ -858,5 +890,7 @@ func randStruct(r *rand.Rand, o *structOpts) *Case {
 	if r.Intn(4) == 0 {
 		cs.Prior = priorOf(r, cs, func(*Field) int { return r.Intn(8) << 1 })
 	}
+	withUsageFlag(r, cs)
+	withFirstParse(r, cs)
 	return cs
 }
